@@ -192,6 +192,10 @@ func serveLoopFns(c *Ctx) (stream []*ssa.Function, packet []*ssa.Function) {
 					packet = append(packet, f)
 					break
 				}
+				if call, ok := cl.(*ssa.Call); ok && isReadWrapperCall(c, call) {
+					packet = append(packet, f) // the listening socket read through a helper of the package
+					break
+				}
 			}
 		}
 	}
